@@ -185,6 +185,7 @@ class LoopMixin:
         if spec is None:
             raise E.Unsupported(f"loop without invariant over symbolic iterable: {header}")
         n, elem = self.iter_view(it, node, frame)
+        run.cut = True
         invs = spec.get("invariant", [])
         for i, inv in enumerate(invs):
             self.ctx.oblige(self, "loop-init", f"{header}#{i}", self.eval_inv(inv, frame, {"_k": VInt(0), "_n": VInt(n)}),
@@ -260,6 +261,7 @@ class LoopMixin:
     # ------------------------------------------------------------ while
     def cut_loop(self, node, frame, spec):
         run = self.run
+        run.cut = True
         header = self.loop_header(node)
         invs = spec.get("invariant", [])
         for i, inv in enumerate(invs):
